@@ -482,7 +482,12 @@ DropWorld(w, ev) ==
              ELSE (IF SeqToSet(L.destroyed) # des THEN {F("C08", "destroyed set differs (extra, missing)", <<(SeqToSet(L.destroyed) \ des), (des \ SeqToSet(L.destroyed))>>)} ELSE {})
              \cup (IF SeqToSet(L.returned) # ret THEN {F("C08", "returned set differs (extra, missing)", <<(SeqToSet(L.returned) \ ret), (ret \ SeqToSet(L.returned))>>)} ELSE {})
              \cup (IF L.held # <<>> THEN {F("C08", "values leaked (still held after the world was dropped)", L.held)} ELSE {})
-             \cup (IF L.zlib # w.zdes + nzheld \/ L.zharn # w.zret THEN {F("C08", "zero-sized component drop count (lib, expected, harness, expected)", <<L.zlib, w.zdes + nzheld, L.zharn, w.zret>>)} ELSE {}))]
+             \* zero-sized values carry no identity: conservation (every value created - by the
+             \* caller or as a Default inside the library - is dropped exactly once), exactly the
+             \* predicted number handed back to the caller, and at least the predicted number
+             \* destroyed by the library (the library may create and destroy Defaults of its own)
+             \cup (IF L.zc # L.zlib + L.zharn \/ L.zharn # w.zret \/ L.zlib < w.zdes + nzheld
+                   THEN {F("C08", "zero-sized component accounting (created, lib drops, expected at least, harness drops, expected)", <<L.zc, L.zlib, w.zdes + nzheld, L.zharn, w.zret>>)} ELSE {}))]
 
 \* a panic escaping library code where none is allowed
 PanicProp(w, ev) ==
